@@ -323,3 +323,17 @@ impl Client {
         self.session_pool.stop_cleanup_task().await;
     }
 }
+
+/// Accessors for the verification harness.
+#[cfg(feature = "verif")]
+impl Client {
+    /// The session pool (to pre-seed it with a session on an in-memory transport, and to observe it).
+    pub fn verif_pool(&self) -> &Arc<SessionPool> {
+        &self.session_pool
+    }
+
+    /// The padding scheme a session created now would be given.
+    pub fn verif_padding(&self) -> Arc<PaddingFactory> {
+        self.padding.clone()
+    }
+}
